@@ -446,7 +446,14 @@ impl<D: DependencyProvider, RT: AsyncRuntime> Solver<D, RT> {
                     Encoder::new(&mut self.state, &self.cache, root_deps).encode([root_solvable]),
                 )?;
 
-                if let Some(clause_id) = conflicting_clauses.into_iter().next() {
+                // A clause is also reported as conflicting when it merely forces a solvable
+                // that is still undecided to false (e.g. a candidate that was encoded eagerly
+                // because its dependencies are cheaply available). Only a clause that is
+                // falsified by the decisions made so far rules out `root_solvable`.
+                if let Some(clause_id) = conflicting_clauses
+                    .into_iter()
+                    .find(|&clause_id| self.is_falsified(clause_id))
+                {
                     return self.run_sat_process_unsolvable(
                         root_solvable,
                         starting_level,
@@ -578,6 +585,23 @@ impl<D: DependencyProvider, RT: AsyncRuntime> Solver<D, RT> {
                 level = starting_level;
             }
         }
+    }
+
+    /// Returns true if every literal of the clause is assigned false by the
+    /// decisions made so far.
+    fn is_falsified(&self, clause_id: ClauseId) -> bool {
+        let decision_map = self.state.decision_tracker.map();
+        let mut falsified = true;
+        self.state.clauses.kinds[clause_id.to_usize()].visit_literals(
+            &self.state.learnt_clauses,
+            &self.state.requirement_to_sorted_candidates,
+            |literal| {
+                if literal.eval(decision_map) != Some(false) {
+                    falsified = false;
+                }
+            },
+        );
+        falsified
     }
 
     /// Decides how to terminate the solver algorithm when the given `solvable`
